@@ -106,7 +106,38 @@ def run(name, prop, tier="quick", extra_env=None):
     return rc
 
 
+def runwt(name, prop, tier="quick"):
+    """like run, but in a scratch worktree (VERIF_REPO) so that /repo stays untouched; evidence goes to /tmp/ev_seed"""
+    d = os.path.join(VERIF, "seeded", name)
+    wt = "/tmp/seedrunwt_" + name
+    sh("git -C %s worktree remove --force %s" % (REPO, wt))
+    rc, out = sh("git -C %s worktree add -q --detach %s HEAD" % (REPO, wt))
+    if rc:
+        print("worktree failed", out)
+        return 2
+    t0 = time.time()
+    try:
+        rc, out = sh("git apply --whitespace=nowarn %s" % os.path.join(d, "patch.diff"), cwd=wt)
+        if rc:
+            print("apply failed", out)
+            return 2
+        env = dict(os.environ, VERIF_REPO=wt, VERIF_EVIDENCE_DIR="/tmp/ev_seed")
+        os.makedirs("/tmp/ev_seed", exist_ok=True)
+        p = subprocess.run([os.path.join(VERIF, "check"), prop, tier], cwd=VERIF, capture_output=True, text=True, env=env, timeout=7200)
+        out = p.stdout + p.stderr
+        rc = p.returncode
+    finally:
+        sh("git -C %s worktree remove --force %s" % (REPO, wt))
+    lines = [l for l in out.splitlines() if l.startswith(("VIOLATION", "ENGINE-ERROR", "UNCONFIRMED", "INCONCLUSIVE", "KNOWN-FINDING")) or " cubes, " in l]
+    print("seed=%s check=%s %s rc=%d %.0fs" % (name, prop, tier, rc, time.time() - t0))
+    for l in lines[:8]:
+        print("   ", l[:600])
+    return rc
+
+
 if __name__ == "__main__":
+    if sys.argv[1] == "runwt":
+        sys.exit(runwt(sys.argv[2], sys.argv[3], *(sys.argv[4:5])))
     if sys.argv[1] == "confirm":
         sys.exit(confirm(sys.argv[2], sys.argv[3]))
     if sys.argv[1] == "run":
